@@ -51,6 +51,14 @@ def gen(tier, rng):
         s["level_idc"], s["constraint_flags"] = rng.choice([9, 10, 11, 12]), b
         cases.append("sps raw:" + hx(g.enc_sps(s, rng).bytes()))
     cases += header_conjunctions(rng)
+    # time bases in actual use (exact x/1001, decimal approximations of them, PAL, film, 90 kHz, 27 MHz) x fixed_frame_rate_flag
+    for nu, ts in g.BROADCAST_TIMING:
+        for fixed in (True, False):
+            for d in ((0, 0), (0, 1), (1, 0), (0, -1)):
+                s = g.gen_sps(rng, small=True, force={"profile_idc": rng.choice([66, 100])})
+                s["vui"] = g.gen_vui(rng, s["max_num_ref_frames"])
+                s["vui"]["timing"] = (nu + d[0], ts + d[1], fixed)
+                cases.append("sps raw:" + hx(g.enc_sps(s, rng).bytes()))
     return cases
 
 
